@@ -190,7 +190,9 @@ package db
 //@   modifies db.has, db.val, db.frontierHash, db.frontierHeight
 
 // Manager.Pop as seen by the momentum pool: the pool's frontier store changes
-//@ func Manager.Pop(self)
+// and, when it succeeds, is the state of the momentum one height below.
+//@ func Manager.Pop(self) -> (err)
+//@   ensures[one-momentum-less] err == nil ==> forall p *chain.momentumPool :: p.chainManager == self ==> iface("store.Momentum", p.frontierStore).idHeight == old(iface("store.Momentum", p.frontierStore).idHeight) - 1
 //@   modifies MF:chain.momentumPool.frontierStore, MF:chain/store.Momentum.idHeight, MF:chain/store.Momentum.idHash
 
 // ======================================================================================================================
